@@ -195,6 +195,8 @@ func readSlot(c *Case, o *Obs, k string) string {
 
 // ---------------------------------------------------------------- running a batch
 
+var reported = map[string]bool{}
+
 type run struct {
 	c   *Case // program form
 	src *Case // as generated (alu cases keep their vectors)
@@ -353,6 +355,10 @@ func runBatch(ctx *hx.Ctx, r *hx.Rand, cases []*Case, sweepMax int) {
 		// 1. property predicates on the implementation alone
 		if len(o.PropFail) > 0 {
 			f := o.PropFail[0]
+			if reported["property:"+propClass(f)] {
+				continue
+			}
+			reported["property:"+propClass(f)] = true
 			sc := shrinkCase(ctx, withGas(x.src, x.gas), func(y *Case) bool {
 				oo := runImpl(progOf(y), y.Gas, false)
 				return len(oo.PropFail) > 0 && propClass(oo.PropFail[0]) == propClass(f)
@@ -378,6 +384,11 @@ func runBatch(ctx *hx.Ctx, r *hx.Rand, cases []*Case, sweepMax int) {
 			ctx.Cov.Count("error-kind-agree=" + fmt.Sprint(m.Class[4:] == o.ErrText || (o.ErrText == "gasoverflow" && m.Class[4:] == "oog") || (o.ErrText == "oog" && m.Class[4:] == "gasoverflow")))
 		}
 		if f, d := diff(x.c, o, &m); f != "" {
+			if reported["correspondence:"+f] { // one shrunk report per class is enough (hx keeps the first anyway)
+				ctx.Cov.Count("further-disagreements-in-" + f)
+				continue
+			}
+			reported["correspondence:"+f] = true
 			sc := shrinkCase(ctx, withGas(x.src, x.gas), func(y *Case) bool {
 				p := progOf(y)
 				oo := runImpl(p, y.Gas, false)
@@ -449,7 +460,7 @@ func shrinkCase(ctx *hx.Ctx, c *Case, pred func(*Case) bool) *Case {
 		return cur
 	}
 	cur := c
-	budget := 400
+	budget := 150
 	try := func(x *Case) bool {
 		if budget <= 0 {
 			return false
